@@ -94,29 +94,36 @@ class Shim:
     def install(self):
         shim = self
 
-        class Path:
-            basename = staticmethod(os.path.basename)
-            dirname = staticmethod(os.path.dirname)
-            join = staticmethod(os.path.join)
-
-            @staticmethod
-            def exists(p):
+        class _Path:
+            def exists(self, p):
                 shim.tick("exists")
                 return os.path.exists(p)
 
-        class FakeOS:
-            path = Path
+            def isfile(self, p):
+                shim.tick("exists")
+                return os.path.isfile(p)
 
-            @staticmethod
-            def rename(a, b):
+            def __getattr__(self, name):
+                return getattr(os.path, name)
+
+        class _OS:
+            path = _Path()
+
+            def rename(self, a, b):
                 shim.tick("rename")
                 os.rename(a, b)
                 shim.tick("renamed")
 
-            @staticmethod
-            def close(fd):
+            replace = rename
+
+            def close(self, fd):
                 shim.tick("close-fd")
                 os.close(fd)
+
+            def __getattr__(self, name):
+                return getattr(os, name)
+
+        FakeOS = _OS()
 
         class FakeTemp:
             @staticmethod
